@@ -48,7 +48,7 @@ def nested_failure(rng):
             if depth > 0 and (k == 0 or rng.random() < 0.4):
                 prog = [['sleep', rng.choice([0, F(1, 2), 1])]] + level(depth - 1)
             elif rng.random() < 0.7:
-                prog = [['sleep', rng.choice([F(1, 2), 1, 2])], ['raise', rng.choice([0, 1, 2, 3, 4])]]
+                prog = [['sleep', rng.choice([F(1, 2), 1, 2])], ['raise', rng.choice([0, 1, 2, 3, 4, 5, 6])]]     # (5, 6: SystemExit, KeyboardInterrupt)
             else:
                 prog = [['sleep', rng.choice([1, 3])], ['log', 50 + t]]
             body.append(['spawn', sc, t, None, None, rng.random() < 0.15, ['prog'] + prog])
